@@ -249,8 +249,10 @@ def run_case(case):
                 feats = set(P.get('features') or [])
                 for Q in gdirect.all_programs(P):
                     feats |= set(Q.get('features') or [])
-                v['rerun_after_immediate_failure'] = bool(
-                    feats & {'cmd-fail', 'bad-expr'}) and any(
+                at_once = bool(feats & {'cmd-fail', 'bad-expr'}) or any(
+                    e['op'] in ('stop:ERROR', 'stop:CANCELLED') and
+                    e.get('reply') == 'ok' for e in ops_desc)
+                v['rerun_after_immediate_failure'] = at_once and any(
                     e['op'] in ('rerun', 'rerun-noreset', 'skip') and
                     e.get('reply') == 'ok' for e in ops_desc)
                 v['waiting_tasks'] = any(str(t).endswith(':WAITING')
